@@ -103,13 +103,16 @@ func (ps *ProcessSet) StartAll(ctx context.Context) error {
 	go ps.run(ctx, sender)
 
 	for _, process := range ps.executes {
+		// the watcher is subscribed (and draining) before the process can emit
+		// its first trace, otherwise it can miss the cease-flow trace
+		traces := process.Tracer().Subscribe()
+		ps.wg.Add(1)
+		go ps.tracerProcess(ctx, process, traces, &ps.wg)
+
 		err := process.StartAll(ctx)
 		if err != nil {
 			return fmt.Errorf("start process %s: %w", process.Id().String(), err)
 		}
-
-		ps.wg.Add(1)
-		go ps.tracerProcess(ctx, process, &ps.wg)
 	}
 
 	return nil
@@ -155,13 +158,15 @@ func (ps *ProcessSet) run(ctx context.Context, sender tracing.ISenderHandle) {
 							continue
 						}
 
+						traces := process.Tracer().Subscribe()
+						ps.wg.Add(1)
+						go ps.tracerProcess(ctx, process, traces, &ps.wg)
+
 						err = process.StartWith(ctx, startFlowNode)
 						if err != nil {
 							ps.tracer.Send(ErrorTrace{Error: err})
 							continue
 						}
-						ps.wg.Add(1)
-						go ps.tracerProcess(ctx, process, &ps.wg)
 					}
 					cancel, found := ps.triggerCatch(string(sourceRef.TargetRefField))
 					if found {
@@ -178,10 +183,9 @@ func (ps *ProcessSet) run(ctx context.Context, sender tracing.ISenderHandle) {
 	}
 }
 
-func (ps *ProcessSet) tracerProcess(ctx context.Context, process *Process, wg *sync.WaitGroup) {
+func (ps *ProcessSet) tracerProcess(ctx context.Context, process *Process, traces chan tracing.ITrace, wg *sync.WaitGroup) {
 	defer wg.Done()
 
-	traces := process.Tracer().Subscribe()
 	defer process.tracer.Unsubscribe(traces)
 
 LOOP:
